@@ -459,19 +459,19 @@ func (s *Stream) skipValue(depth int64) error {
 func nullBytes(s *Stream) error {
 	// current cursor's character is 'n'
 	s.cursor++
-	if s.char() != 'u' {
+	for s.char() != 'u' {
 		if err := retryReadNull(s); err != nil {
 			return err
 		}
 	}
 	s.cursor++
-	if s.char() != 'l' {
+	for s.char() != 'l' {
 		if err := retryReadNull(s); err != nil {
 			return err
 		}
 	}
 	s.cursor++
-	if s.char() != 'l' {
+	for s.char() != 'l' {
 		if err := retryReadNull(s); err != nil {
 			return err
 		}
@@ -490,19 +490,19 @@ func retryReadNull(s *Stream) error {
 func trueBytes(s *Stream) error {
 	// current cursor's character is 't'
 	s.cursor++
-	if s.char() != 'r' {
+	for s.char() != 'r' {
 		if err := retryReadTrue(s); err != nil {
 			return err
 		}
 	}
 	s.cursor++
-	if s.char() != 'u' {
+	for s.char() != 'u' {
 		if err := retryReadTrue(s); err != nil {
 			return err
 		}
 	}
 	s.cursor++
-	if s.char() != 'e' {
+	for s.char() != 'e' {
 		if err := retryReadTrue(s); err != nil {
 			return err
 		}
@@ -521,25 +521,25 @@ func retryReadTrue(s *Stream) error {
 func falseBytes(s *Stream) error {
 	// current cursor's character is 'f'
 	s.cursor++
-	if s.char() != 'a' {
+	for s.char() != 'a' {
 		if err := retryReadFalse(s); err != nil {
 			return err
 		}
 	}
 	s.cursor++
-	if s.char() != 'l' {
+	for s.char() != 'l' {
 		if err := retryReadFalse(s); err != nil {
 			return err
 		}
 	}
 	s.cursor++
-	if s.char() != 's' {
+	for s.char() != 's' {
 		if err := retryReadFalse(s); err != nil {
 			return err
 		}
 	}
 	s.cursor++
-	if s.char() != 'e' {
+	for s.char() != 'e' {
 		if err := retryReadFalse(s); err != nil {
 			return err
 		}
